@@ -59,7 +59,9 @@ void h_get_full(void) { EbFifo *f; EbObjectWrapper **o; svt_get_full_object(f, o
 #else
 void h_get_full_nb(void) { EbFifo *f; EbObjectWrapper **o; svt_get_full_object_non_blocking(f, o); C; }
 #endif
-void h_get_empty(void) { EbFifo *f; EbObjectWrapper **o; svt_get_empty_object(f, o); C; }
+#ifdef C23_L3_GETEMPTY
+void h_get_empty(void) { EbFifo fifo; EbObjectWrapper **o; g_shut_fifo = &fifo; svt_get_empty_object(&fifo, o); C; }
+#endif
 void h_release(void) { EbObjectWrapper *o; svt_release_object(o); C; }
 void h_post(void) { EbObjectWrapper *o; svt_post_full_object(o); C; }
 void h_inc(void) { EbObjectWrapper *o; uint32_t n; svt_object_inc_live_count(o, n); C; }
